@@ -41,7 +41,7 @@ var vNativeParamSets = []ParametersLiteral{
 	{LogN: 4, LogQ: []int{45, 35}, NTTFlag: false},
 	{LogN: 4, LogQ: []int{45, 35}, LogP: []int{40}, NTTFlag: false},
 	{LogN: 4, LogQ: []int{45, 35, 35, 35}, LogP: []int{40, 40}, NTTFlag: true},
-	{LogN: 4, Q: []uint64{49719739886171393, 1429365117217}, NTTFlag: true}, // primes in (2^k, 2^k*sqrt2): log2 rounds down
+	{LogN: 4, Q: []uint64{1429365117217, 49719739886171393}, NTTFlag: true}, // primes in (2^k, 2^k*sqrt2): log2 rounds down
 }
 
 // VerifSetup_Ctx builds the objects of parameter set i natively (keys are allocated, not yet generated);
@@ -138,4 +138,23 @@ func vHasNoise(r *ring.Ring, d ring.Poly) bool {
 func vMetaEq(a, b *MetaData) bool {
 	return a.Scale.Cmp(b.Scale) == 0 && a.LogDimensions == b.LogDimensions && a.IsBatched == b.IsBatched &&
 		a.IsBitReversed == b.IsBitReversed && a.IsNTT == b.IsNTT && a.IsMontgomery == b.IsMontgomery
+}
+
+func vItoa(n int) string {
+	if n == 0 {
+		return "0"
+	}
+	neg := n < 0
+	if neg {
+		n = -n
+	}
+	s := ""
+	for n > 0 {
+		s = string(rune('0'+n%10)) + s
+		n /= 10
+	}
+	if neg {
+		s = "-" + s
+	}
+	return s
 }
